@@ -40,6 +40,19 @@ Section Dispatch.
     end.
 End Dispatch.
 
+(* SPEC: the documented table and the documented gain rules, nothing taken from the source *)
+Definition spec_dispatch : list (string * (Z * (bool * bool))) :=
+  [("K"%string, (0, (false, false))); ("B"%string, (1, (false, false))); ("G"%string, (2, (true, false)));
+   ("GPHASE"%string, (2, (false, true))); ("GAMP_PHASE"%string, (2, (false, true)))].
+Definition spec_gain_like_correction (rsqrt : Q -> Q) (t : string) (N : nat) (sols : list sol)
+           (names_at : nat -> list Z) (tbl : flux_table) (targets : list Z) : option (list (list (option pv))) :=
+  match lookup_kind spec_dispatch t with
+  | Some (KGain flux per_target) =>
+      let s := if flux then calibrate_flux rsqrt sols names_at tbl else sols in
+      Some (spec_gain_corr N s (if per_target then Some targets else None))
+  | _ => None
+  end.
+
 Definition sx_of_kind (k : option cal_kind) : sx :=
   match k with
   | None => L []
@@ -57,6 +70,16 @@ Definition wire_142 (x : sx) : sx :=
       let rt := map (fun e => match e with L [a; b] => (q_of_sx a, q_of_sx b) | _ => (0%Q, 0%Q) end) (to_list rt) in
       match gain_like_correction (rsqrt_tbl rt) (to_string t) (Z.to_nat n) (map sol_of_sx (to_list sols))
                                  (fun d => nth d names []) tbl (to_Zs tg) with
+      | Some rows => L [L (map sx_of_opvs rows)]
+      | None => L []
+      end
+  | L [I 10; t] => sx_of_kind (lookup_kind spec_dispatch (to_string t))
+  | L [I 11; t; I n; sols; names; measured; ov; rt; tg] =>
+      let names := map to_Zs (to_list names) in
+      let tbl := merge_flux (ftable_of_sx measured) (match ov with L [o] => Some (ftable_of_sx o) | _ => None end) in
+      let rt := map (fun e => match e with L [a; b] => (q_of_sx a, q_of_sx b) | _ => (0%Q, 0%Q) end) (to_list rt) in
+      match spec_gain_like_correction (rsqrt_tbl rt) (to_string t) (Z.to_nat n) (map sol_of_sx (to_list sols))
+                                      (fun d => nth d names []) tbl (to_Zs tg) with
       | Some rows => L [L (map sx_of_opvs rows)]
       | None => L []
       end
